@@ -87,6 +87,11 @@ type P4d struct {
 	pkts     []PktOut
 	Invalid  []string // P4Info conformance violations (C16)
 	streams  []p4.P4Runtime_StreamChannelServer
+	// elect: the election id each open stream arbitrated with. As on a real P4Runtime target a Write is accepted only
+	// from the primary - the client whose election id is the highest among the open streams (P4Runtime 1.3, 5.3/5.4);
+	// after a restart of the switch nobody is primary until a controller opens a stream and arbitrates again.
+	elect  map[p4.P4Runtime_StreamChannelServer][2]uint64
+	Denied int // writes refused with PERMISSION_DENIED
 
 	// fault plan: fail the Write RPC whose ordinal (counted from Arm) equals FailAt
 	writeN   int
@@ -190,6 +195,7 @@ func (d *P4d) Stop() {
 	d.srv.Stop()
 	d.mu.Lock()
 	d.streams = nil
+	d.elect = nil
 	d.mu.Unlock()
 }
 
@@ -244,11 +250,18 @@ func (d *P4d) StreamChannel(s p4.P4Runtime_StreamChannelServer) error {
 					break
 				}
 			}
+			delete(d.elect, s)
 			d.mu.Unlock()
 			return nil
 		}
 		switch u := req.Update.(type) {
 		case *p4.StreamMessageRequest_Arbitration:
+			d.mu.Lock()
+			if d.elect == nil {
+				d.elect = map[p4.P4Runtime_StreamChannelServer][2]uint64{}
+			}
+			d.elect[s] = [2]uint64{u.Arbitration.GetElectionId().GetHigh(), u.Arbitration.GetElectionId().GetLow()}
+			d.mu.Unlock()
 			_ = s.Send(&p4.StreamMessageResponse{Update: &p4.StreamMessageResponse_Arbitration{Arbitration: &p4.MasterArbitrationUpdate{
 				DeviceId: u.Arbitration.DeviceId, ElectionId: u.Arbitration.ElectionId, Status: &gstatus.Status{Code: int32(code.Code_OK)}}}})
 		case *p4.StreamMessageRequest_Packet:
@@ -257,6 +270,18 @@ func (d *P4d) StreamChannel(s p4.P4Runtime_StreamChannelServer) error {
 			d.mu.Unlock()
 		}
 	}
+}
+
+// isPrimary (d.mu held): the election id is the highest one an open stream has arbitrated with.
+func (d *P4d) isPrimary(e *p4.Uint128) bool {
+	var best [2]uint64
+	found := false
+	for _, x := range d.elect {
+		if !found || x[0] > best[0] || (x[0] == best[0] && x[1] > best[1]) {
+			best, found = x, true
+		}
+	}
+	return found && e != nil && e.High == best[0] && e.Low == best[1]
 }
 
 // InjectDigest sends a digest carrying a UE address to every open stream.
@@ -461,6 +486,17 @@ func (d *P4d) Write(ctx context.Context, req *p4.WriteRequest) (*p4.WriteRespons
 	}
 	d.mu.Lock()
 	defer d.mu.Unlock()
+	// the arbitration travels on the stream and this request on its own: give an arbitration that is already on its
+	// way (the agent does not wait for the answer to it) the time to be read before judging
+	for i := 0; i < 300 && !d.isPrimary(req.GetElectionId()); i++ {
+		d.mu.Unlock()
+		time.Sleep(time.Millisecond)
+		d.mu.Lock()
+	}
+	if !d.isPrimary(req.GetElectionId()) {
+		d.Denied++
+		return nil, status.Error(codes.PermissionDenied, "the sender is not the primary controller of this device")
+	}
 	d.writeN++
 	w := PWrite{Seq: Events.Add(1), N: len(req.Updates), Updates: req.Updates}
 	for _, u := range req.Updates {
